@@ -23,8 +23,8 @@ CI = "cli/ir.py"
 CV = "cli/validation.py"
 
 
-def V(id, fire=None, silent=None, edits=(), note=""):
-    return {"id": id, "fire": fire or {}, "silent": silent or [], "edits": list(edits), "note": note}
+def V(id, fire=None, silent=None, edits=(), note="", tier="quick"):
+    return {"id": id, "fire": fire or {}, "silent": silent or [], "edits": list(edits), "note": note, "tier": tier}
 
 
 ALL = ["C01", "C02", "C03", "C04", "C05", "C06", "C07", "C08", "C09", "C10", "C11", "C12", "C13", "C14", "C15", "C16", "C17", "C18", "C19", "C20"]
@@ -270,6 +270,15 @@ VARIANTS = [
         (CM, "    command = 'xsm generate-template ' + ' '.join(sources) + f' --template {template}'\n", "    import time\n    command = 'xsm generate-template ' + ' '.join(sources) + f' --template {template} at {time.time()}'\n")]),
     V("c17-ir-drops-invoke-input", {"C17": "R5"}, edits=[
         (CI, ", input=item.get('input')))", "))")]),
+    V("c17-raw-name-in-logic-code", {"C17": "R7"}, tier="thorough", edits=[
+        (CE, "            parts.append(literal(act.type))\n", "            parts.append(f\"'{act.type}'\")\n")],
+      note="an action name interpolated between quotes instead of through literal()"),
+    V("c17-raw-machine-id-in-builder", {"C17": "R7"}, tier="thorough", edits=[
+        ("cli/builders.py", "f'    builder = MachineBuilder({literal(machine.id)})'", "f\"    builder = MachineBuilder('{machine.id}')\"")]),
+    V("c17-docstring-unsanitised", {"C17": "R7"}, tier="thorough", edits=[
+        ("cli/builders.py", "f'    \"\"\"Build the {docstring_safe(machine.id)} machine (builder style).\"\"\"'", "f'    \"\"\"Build the {machine.id} machine (builder style).\"\"\"'")]),
+    V("silent-literal-spelled-repr", silent=["C17"], tier="thorough", edits=[
+        (CE, "            parts.append(literal(act.type))\n", "            parts.append(repr(act.type))\n")]),
     # ------------------------------------------------------------------ C18
     V("c18-transition-shape-not-total", {"C18": "R1"}, edits=[
         (M, "        if config is not None:\n            raise InvalidConfigError(f'❌ Invalid transition config: {config}. Must be a string, dictionary, or list.')\n        return []\n", "        return []\n")]),
